@@ -206,6 +206,48 @@ func decideRTNoZone(c rtCase) (*rp.Fail, string, bool) {
 				return
 			}
 		}
+		// a variable that is reused: the message decoded over what an earlier decode left there gives the same value as decoded
+		// into a fresh variable - in particular the all-zero message ('no date', 00:00, false, 0) over this value, and this value
+		// over the all-zero message (nil-tolerant pointer fields keep what they had when the bytes say 'no value': not judged)
+		{
+			zeroMsg := make([]byte, 64)
+			zeroMsg[0], zeroMsg[1] = enc[0], enc[1]
+			for _, f := range layout.Fields {
+				if f.Name == "magic" {
+					copy(zeroMsg[f.Off:f.Off+4], enc[f.Off:f.Off+4])
+				}
+			}
+			fresh, errZ := decode(append([]byte(nil), zeroMsg...))
+			if errZ == nil {
+				used := reflect.New(v.Type())
+				if err := codec.Unmarshal(append([]byte(nil), enc...), used.Interface()); err == nil {
+					if p := try(func() { err = codec.Unmarshal(append([]byte(nil), zeroMsg...), used.Interface()) }); p == nil && err == nil {
+						fl, ul := fv.Leaves(fresh), fv.Leaves(used.Elem())
+						for i := range fl {
+							if fl[i].Kind() == reflect.Ptr {
+								continue
+							}
+							if a, b := fv.Canon(fl[i]), fv.Canon(ul[i]); a != b {
+								fail = rp.Failf("codec.Unmarshal/wrong-value/dirty-target", "%s in zone %s: leaf %d of the all-zero message decodes as %s into a fresh variable but as %s into a variable that held %s", typeName, c.Zone, i, a, b, before[i])
+								return
+							}
+						}
+						if err = codec.Unmarshal(append([]byte(nil), enc...), used.Interface()); err == nil {
+							if d := fv.FirstDiff(before, fv.CanonAll(used.Elem())); d != "" && !isZeroDateDiff(d) {
+								// pointer leaves whose bytes say 'no value' keep the earlier (zero) target: compare the rest
+								ul = fv.Leaves(used.Elem())
+								for i := range ul {
+									if ul[i].Kind() != reflect.Ptr && fv.Canon(ul[i]) != before[i] {
+										fail = rp.Failf("codec.Unmarshal/wrong-value/dirty-target", "%s in zone %s: decoded over an earlier value: %s", typeName, c.Zone, d)
+										return
+									}
+								}
+							}
+						}
+					}
+				}
+			}
+		}
 		// a receive buffer that is reused: every message of the run is also decoded out of ONE 64-byte array whose contents are
 		// replaced in place - the result depends on the bytes that are there at the time of the call
 		sharedMu.Lock()
